@@ -88,6 +88,12 @@ struct Header {
     crc32c: u32,
 }
 
+/// Verification hook (only with `--cfg blue_verif`): see [crate::verif_repack].
+#[cfg(blue_verif)]
+pub(crate) fn verif_repack_header(buf: &[u8]) -> Result<(Vec<u8>, usize), String> {
+    crate::verif_repack_as::<Header>(buf)
+}
+
 /// The maximum header size for a log header.
 pub const HEADER_MAX_SIZE: u64 = 1 // one byte for size of header
                                + 1 + 10 // size is a varint
